@@ -5,7 +5,7 @@ demo fails with the patch, the existing suite gives the baseline result.  If all
 hold, copy it to /verif/seeded/<Cxx>/<n>/ with a `confirmed` record in meta.json."""
 import glob, json, os, re, shutil, subprocess, sys, time
 src, pid = sys.argv[1].rstrip("/"), sys.argv[2]
-n = os.path.basename(src)
+n = sys.argv[3] if len(sys.argv) > 3 else os.path.basename(src)
 ENV = dict(os.environ, GOFLAGS="-mod=mod", GOPROXY="off", GOSUMDB="off", GOTOOLCHAIN="local")
 PKGDIR = {"opcua": ".", "ua": "ua", "uasc": "uasc", "uacp": "uacp", "uapolicy": "uapolicy", "server": "server", "monitor": "monitor", "errors": "errors", "stats": "stats"}
 KNOWN_BAD = {"TestResolveEndpoint", "TestStats", "TestClientWrite", "TestConn", "TestServerWrite"}
